@@ -5,7 +5,7 @@ from ..core import f2b, b2f, run_harness, run_driver
 from .. import samples as S, sample_checks as SC, graphs, gen, kin
 
 MODULE = "Momtrop.Props.C01Sector"
-THEOREMS = ["Momtrop.C01.det_momentum_map", "Momtrop.C01.inverse_cdf_law", "Momtrop.C01.xi_power_law", "Momtrop.C01.reduction", "Momtrop.C01.chain_law", "Momtrop.C01.dens_closed", "Momtrop.C01.abel_tropical", "Momtrop.C01.dens_tropical", "Momtrop.C01.sector_density_times_prob"]
+THEOREMS = ["Momtrop.C01.det_momentum_map", "Momtrop.C01.inverse_cdf_law", "Momtrop.C01.xi_power_law", "Momtrop.C01.reduction", "Momtrop.C01.chain_law", "Momtrop.C01.dens_closed", "Momtrop.C01.abel_tropical", "Momtrop.C01.dens_tropical", "Momtrop.C01.sector_density_times_prob", "Momtrop.C01.sector_expectation", "Momtrop.C01.tropical_sampling"]
 RULE = ("(i) end-to-end correspondence of sample (all fields) on multi-loop, massive, unequal-weight, D=1..6, non-trivial-routing inputs; "
         "(ii) SUPPORTING TEST, not a proof: fixed-seed Monte Carlo means against closed forms - mean(jacobian) for the massive tadpole, "
         "equal-mass bubble at zero momentum and the two-tadpole product (two routings), and mean(jacobian * g) with "
@@ -41,8 +41,11 @@ def run(ctx):
     ss += S.generate(ctx, 6 if ctx.quick else 40, 6, max_e=5, max_loops=3, routings_per_graph=1, kinds=("corner", "corner", "tiny_xi"),
                      names=["sunrise", "banana4", "double_triangle", "bubble_chain", "kite"])
     ss += S.generate(ctx, 2 if ctx.quick else 6, 6, max_e=8, max_loops=7, routings_per_graph=2, names=["banana8"], kinds=("uniform", "corner"))
+    # exact coincidences among the propagator powers (repeated at non-adjacent positions; equal to the overall dod)
+    ss += S.generate(ctx, 0, 2, routings_per_graph=1, kinds=("uniform",), special=("repeated_weights", "weights_equal_dod") * (3 if ctx.quick else 10))
     S.run(ss)
     SC.corr_sample(ctx, ss)
+    SC.normalisation_oracle(ctx, ss)
     SC.generic_scalar_guard(ctx, ss[:: 7], k=8)
     for s in ss:
         c, r, a = s["case"], s["routing"], s["impl"]
